@@ -63,46 +63,17 @@ def enc_snapshot(s):
 def nvtok(nv): return '-' if nv is None else str(nv)
 
 
-class Hang(Exception):
-    pass
-
-
-class _Guard:
-    armed = False
-    fired = False
-
-
-def _alarm(signum, frame):
-    if _Guard.armed:
-        _Guard.fired = True
-        raise Hang()
-
-
 def impl_read(path, nv, check, limit=2):
-    """t2incon(filename, ...) -> ('OK', tokens, object) | ('RAISE', class) | ('HANG',).
-    The guard is a repeating CPU-time timer (the machine may be loaded; PyTOUGH's bare `except:` clauses can swallow
-    one interruption -- and then return garbage): once it has fired the outcome is HANG whatever came back."""
+    """t2incon(filename, ...) -> ('OK', tokens, object) | ('RAISE', class) | ('HANG',)  (guard: c13_oracle.guarded)"""
     from t2incons import t2incon
-    old = signal.signal(signal.SIGVTALRM, _alarm)
-    _Guard.fired = False; _Guard.armed = True
-    res = None
-    try:
-        try:
-            signal.setitimer(signal.ITIMER_VIRTUAL, limit, 0.05)
-            try:
-                inc = t2incon(path, num_variables=nv, check_blocknames=check)
-                res = ('OK', enc_snapshot(orc.snapshot(inc)), inc)
-            except Hang:
-                res = ('HANG',)
-            except Exception as e:
-                res = ('RAISE', type(e).__name__)
-        finally:
-            _Guard.armed = False
-            signal.setitimer(signal.ITIMER_VIRTUAL, 0)
-            signal.signal(signal.SIGVTALRM, old)
-    except Hang:
-        res = ('HANG',)
-    return ('HANG',) if _Guard.fired or res is None else res
+
+    def go():
+        inc = t2incon(path, num_variables=nv, check_blocknames=check)
+        return (enc_snapshot(orc.snapshot(inc)), inc)
+    r = orc.guarded(go, limit)
+    if r[0] == 'OK': return ('OK', r[1][0], r[1][1])
+    if r[0] == 'RAISE': return ('RAISE', type(r[1]).__name__)
+    return ('HANG',)
 
 
 EXN = {'Exception': 'Exception'}
@@ -296,8 +267,10 @@ def correspond(ctx, exe, n_objects, n_oracle, n_inst):
         shards = max(1, SHARDS - 2)
         descs = [orc.gen_desc(rng, ctx.thorough) for _ in range(n_oracle)] + \
                 [gen_corr_desc(rng, ctx.thorough) for _ in range(n_objects - n_oracle)]
+        oracle_descs = descs[:n_oracle]
         f1 = os.path.join(tmpdir, 'a.incon'); f2 = os.path.join(tmpdir, 'b.incon')
         wl, rl, cl, w2l = [], [], [], []
+        nhang = 0
         impl_w, impl_r, impl_w2, ptexts = [], [], [], []
         for k, d in enumerate(descs):
             toks = enc_obj(d['sim'], d['timing'], d['blocks'])
@@ -313,6 +286,7 @@ def correspond(ctx, exe, n_objects, n_oracle, n_inst):
                 continue
             r = impl_read(f1, d['nv'], d['check'], limit=1)
             impl_r.append(r)
+            nhang += r[0] == 'HANG'
             rl.append((len(impl_r) - 1, read_case(d['nv'], d['check'], read_text(f1))))
             if r[0] == 'OK':
                 try:
@@ -322,6 +296,10 @@ def correspond(ctx, exe, n_objects, n_oracle, n_inst):
                     impl_w2.append(('RAISE', type(e).__name__))
             else: impl_w2.append(None)
             ptexts.append(text)
+            if nhang > 30:
+                ctx.log('the reader did not return on %d of the first %d objects: remaining objects are not run' % (nhang, k + 1))
+                descs = descs[:k + 1]
+                break
         lap(ctx, 'implementation: %d objects written / read / rewritten' % len(descs))
         # model writes
         for d, mo, im in zip(descs, run_model(exe, wl, shards), impl_w):
@@ -354,13 +332,16 @@ def correspond(ctx, exe, n_objects, n_oracle, n_inst):
         ctx.corr_cases('model-rewrite-vs-implementation-rewrite', len(w2l), skipped_object_holds_nan_or_inf=nnan)
         lap(ctx, 'model reads and rewrites done')
         # hypotheses and theorem instances, evaluated by the extracted model
-        nwf = nidh = nq = nqwf = 0
+        nwf = nidh = nq = nqwf = nfit = nqfit = 0
         for (k, _), mo in zip(cl, run_model(exe, [l for _, l in cl], shards)):
             d = descs[k]
             fl = dict(kv.split('=') for kv in mo.split(' ')) if '=' in mo else {}
             if not fl:
                 ctx.disagreement('theorem-instances(model)', orc.desc_to_json(d), mo, 'flags'); continue
             nq += k < n_oracle
+            nfit += fl['wff'] == '1'; nqfit += fl['wff'] == '1' and k < n_oracle
+            if fl['wff'] == '1' and fl['wf'] != '1':
+                ctx.disagreement('theorem-instances(model)', orc.desc_to_json(d), mo, 'wf_fits implies wf (fit_implies_readback)')
             if fl['wf'] == '1':
                 nwf += 1; nqwf += k < n_oracle
                 if fl['rw'] != '1':
@@ -369,11 +350,11 @@ def correspond(ctx, exe, n_objects, n_oracle, n_inst):
                     nidh += 1
                     if fl['idem'] != '1':
                         ctx.disagreement('theorem-instances(model)', orc.desc_to_json(d), mo, 'wf and idem hypotheses imply write(canon i) = write i')
-        ctx.corr_cases('theorem-instances(model)', len(cl), wf_met=nwf, wf_and_idem_hyps_met=nidh, within_quantifier=nq, within_quantifier_wf_met=nqwf)
-        ctx.hyp_met['incon_read_write: wf (generated objects within the property quantifier)'] = '%d of %d' % (nqwf, nq)
+        ctx.corr_cases('theorem-instances(model)', len(cl), wf_fits_met=nfit, wf_met=nwf, wf_and_idem_hyps_met=nidh, within_quantifier=nq, within_quantifier_wf_fits_met=nqfit, within_quantifier_wf_met=nqwf)
+        ctx.hyp_met['incon_read_write: wf_fits (generated objects within the property quantifier)'] = '%d of %d' % (nqfit, nq)
         ctx.hyp_met['incon_write_idem: wf and field idempotence (all evaluated objects)'] = '%d of %d' % (nidh, len(cl))
-        if nqwf * 4 < nq:
-            ctx.proof_failures.append({'kind': 'finite', 'name': 'incon_read_write (hypothesis wf is met by %d of %d generated objects)' % (nqwf, nq),
+        if nqfit * 4 < nq:
+            ctx.proof_failures.append({'kind': 'finite', 'name': 'incon_read_write (hypothesis wf_fits is met by %d of %d generated objects)' % (nqfit, nq),
                                        'detail': 'the theorem has become (nearly) vacuous on the objects of the property quantifier'})
         lap(ctx, 'theorem instances done')
         # perturbed files
@@ -412,7 +393,7 @@ def correspond(ctx, exe, n_objects, n_oracle, n_inst):
                         ctx.disagreement('shipped-files', {'file': rel, 'rewrite_reset': reset}, 'model write of the model-read object differs', 'implementation write')
         ctx.corr_cases('shipped-files', nship, files=len(ship))
         lap(ctx, 'shipped files done')
-        return descs[:n_oracle]
+        return oracle_descs
     finally:
         pool.shutdown(wait=True)
         shutil.rmtree(tmpdir, ignore_errors=True)
@@ -448,7 +429,7 @@ def oracle(ctx, descs, name='write-read-write'):
     tmpdir = tempfile.mkdtemp(prefix='c13o_')
     dist = {'raised_unrepresentable': 0, 'passed': 0}
     try:
-        for d in descs:
+        for nrun, d in enumerate(descs):
             ctx.count(json.dumps(orc.desc_to_json(d), sort_keys=True), nontrivial=orc.nontrivial(d))
             out = orc.roundtrip(d, tmpdir)
             bad = orc.evaluate_all(d, out)
@@ -459,6 +440,9 @@ def oracle(ctx, descs, name='write-read-write'):
             for what, obs, req in bad:
                 key = orc.classify(d, what, out.get('text1'), out.get('text2'), out.get('got'))
                 ctx.failure(name, key, orc.desc_to_json(d), '%s: %s' % (what, obs), req)
+            if len(ctx.new_failures) >= 25:
+                ctx.log('oracle sweep stopped after %d objects: 25 failures outside the known findings' % (nrun + 1))
+                break
         for d in descs[:3]: ctx.sample(orc.desc_to_json(d))
     finally:
         shutil.rmtree(tmpdir, ignore_errors=True)
